@@ -48,6 +48,10 @@ type History struct {
 	AutoClear  bool `json:"auto_clear"`
 	AutoClean  bool `json:"auto_clean,omitempty"`
 	Concurrent bool `json:"concurrent"`
+	// Names selects the file-name prefix handed to morass.New and the name of the parent directory:
+	// 0 plain ("run" in "vmorass..."); 1..4 names with characters that mean something to a glob
+	// pattern or a format string ("run[1]", "a*b", "so?rt", "p%d") - all legal file names.
+	Names int `json:"names,omitempty"`
 	// Recover: when a cycle ends with an error from the sorter (only possible under injected faults),
 	// call Clear and, if that succeeds, carry on with the next cycle
 	Recover bool    `json:"recover,omitempty"`
@@ -81,7 +85,18 @@ type Sorter struct {
 
 // NewSorter creates the sorter inside a fresh parent directory.
 func NewSorter(h History) (*Sorter, error) {
-	parent, err := os.MkdirTemp("", "vmorass")
+	prefix, dirPat := "run", "vmorass"
+	switch h.Names {
+	case 1:
+		prefix, dirPat = "run[1]", "vmo[r]ass"
+	case 2:
+		prefix, dirPat = "a*b", "vmorass"
+	case 3:
+		prefix, dirPat = "so?rt", "vmo?rass"
+	case 4:
+		prefix, dirPat = "p%d", "v%smorass"
+	}
+	parent, err := os.MkdirTemp("", dirPat)
 	if err != nil {
 		return nil, err
 	}
@@ -89,7 +104,7 @@ func NewSorter(h History) (*Sorter, error) {
 	if h.Struct {
 		e = RecT{}
 	}
-	m, err := morass.New(e, "run", parent, h.Chunk, h.Concurrent)
+	m, err := morass.New(e, prefix, parent, h.Chunk, h.Concurrent)
 	if err != nil {
 		os.RemoveAll(parent)
 		return nil, err
